@@ -138,10 +138,11 @@ def build_project(root, spec):
         add("[{M} *x*](common.md#sub)", kind="common-sub", target=dn(sd, "common"), explicit=True, spelling="same-name")
         add("[](./common.md)", kind="common", target=dn(sd, "common"), explicit=False, spelling="same-name-dot")
         for form, sp in (("[{M} t](nodoc{K}.md)", "doc"), ("[{M} t](#nolabel{K})", "label"), ("<project:nodoc{K}.md>", "doc-auto"), ("[{M} t](sub/nodoc{K}.md#x)", "doc-anchor"),
-                         ("[](nolabel{K})", "bare"), ("[{M} t](project:#nolabel{K})", "project-label")):
+                         ("[](nolabel{K})", "bare"), ("[{M} t](project:#nolabel{K})", "project-label"),
+                         ("[{M} t](#NoLabel-Up{K})", "label-mixed-case")):  # the warning names the destination AS WRITTEN
             kk = k + 1
             add(form.replace("{K}", str(kk)), kind="missing", target=None, explicit="{M}" in form, spelling=sp,
-                missing=(f"nodoc{kk}" if "nodoc" in form else f"nolabel{kk}"))
+                missing=(f"nodoc{kk}" if "nodoc" in form else f"NoLabel-Up{kk}" if "NoLabel-Up" in form else f"nolabel{kk}"))
         (src / (sname + ".md")).write_text("\n".join(body))
         srcs[sname] = j
     commons = [dn(d, "common") for d in dirs]
@@ -158,7 +159,7 @@ class ProjectSystem(System):
         self.variants = QUICK if tier == "quick" else list(VARIANTS)
         self.description = (f"{len(self.variants)} generated projects ({', '.join(self.variants)}): one source and one target page per directory; every source page links to every target "
                             "(page, heading anchor, duplicate-title anchor '-1', depth-3 anchor, title label, paragraph label, non-document file, missing anchor) in every spelling "
-                            "(relative, ./, detour through .., leading /, no extension, <project:>, [](project:), '#label', bare label, <path:>) with explicit and empty text, plus 6 missing-target forms")
+                            "(relative, ./, detour through .., leading /, no extension, <project:>, [](project:), '#label', bare label, <path:>) with explicit and empty text, plus 7 missing-target forms (one with upper-case letters)")
 
     def prepare(self, ctx):
         self.root = ctx.scratch / "c12"
